@@ -59,6 +59,8 @@ def gen_one(rng: random.Random) -> dict:
                     write["meta"] = {"obj": "nested"}
                 writes.append(write)
                 continue
+            if current is None and style in ("literal", "mixed") and rng.random() < 0.25:
+                write["meta"] = {"lit": {}}          # an explicitly empty dict (not None, not omitted)
             if current is not None:
                 use_alias = style == "alias" or (style == "mixed" and rng.random() < 0.5)
                 if use_alias:
@@ -83,6 +85,8 @@ def token(write: dict) -> str:
     if meta is None:
         return "-"
     value = meta.get("set") if "obj" in meta else meta.get("lit")
+    if value == {} and "obj" not in meta:
+        return "{}"
     if meta.get("obj") == "nested":
         return "@n" + (str(meta["nested_set"][0][2]) if meta.get("nested_set") else "=")
     return ("@" if "obj" in meta else "") + str(VALUES.index(value) if value in VALUES else "?")
